@@ -194,6 +194,48 @@ def recoverGroupSignature {G : Type} (ops : Ops G) (r : Nat) (k : Nat) (m : List
     | none => .panic
     | some sigs => recoverWith ops r (it.map Prod.fst) sigs
 
+/-! ### `GroupSignGenerator` (`model/group_sign.go`, and its twin in `logical/round_sign_piece.go`) -/
+
+/-- State of a generator: threshold, witness map (as the list of its entries), recovered
+    signature (`none` = zero-valued `Signature{}`, nil point). -/
+structure SignGen (G : Type) where
+  k : Nat
+  witnesses : List (Nat × Option G)
+  groupSign : Option G
+
+def SignGen.new {G : Type} (k : Nat) : SignGen G := ⟨k, [], none⟩
+
+/-- `SignRecovered()` = `groupSign.IsValid()`: non-nil point that is on the curve (`isValid`). -/
+def signRecovered {G : Type} (isValid : G → Bool) (st : SignGen G) : Bool :=
+  match st.groupSign with
+  | some g => isValid g
+  | none => false
+
+/-- `AddWitnessSign(id, sig)` → `(state, add, generated)`. Already recovered: `(false, true)`.
+    Known id: `(false, false)`. Otherwise store; with `len ≥ threshold` call `genGroupSign`,
+    which recovers (unless a valid signature is there), stores the result and reports `true`.
+    `c` is the choice `RecoverGroupSignature` makes in this call. -/
+def addWitnessSign {G : Type} (ops : Ops G) (r : Nat) (isValid : G → Bool) (st : SignGen G)
+    (id : Nat) (sig : Option G) (c : Choice (Nat × Option G)) : Res (SignGen G × Bool × Bool) :=
+  if signRecovered isValid st then .ok (st, false, true)
+  else if st.witnesses.any (fun e => e.1 == id) then .ok (st, false, false)
+  else
+    let w := st.witnesses ++ [(id, sig)]
+    if st.k ≤ w.length then
+      match recoverGroupSignature ops r st.k w c with
+      | .panic => .panic
+      | .ok g => .ok (⟨st.k, w, g⟩, true, true)
+    else .ok (⟨st.k, w, st.groupSign⟩, true, false)
+
+/-- Feed a sequence of arrivals, each with the choice made by that call. -/
+def feed {G : Type} (ops : Ops G) (r : Nat) (isValid : G → Bool) :
+    SignGen G → List (Nat × Option G × Choice (Nat × Option G)) → Res (SignGen G)
+  | st, [] => .ok st
+  | st, (id, sig, c) :: rest =>
+    match addWitnessSign ops r isValid st id sig c with
+    | .panic => .panic
+    | .ok (st', _, _) => feed ops r isValid st' rest
+
 /-! ### `GetGroupK` -/
 
 /-- Bit length (`0` for `0`). -/
